@@ -95,7 +95,7 @@ def run_s2c(prop, tier, seed, opts):
                 if consumed != len(obs_lines):
                     raise V.Broken("trace spec %s consumed %d of %d lines" % (c2["trace"]["module"], consumed, len(obs_lines)))
                 import re as _re
-                m = _re.search(r'"SKIPPED", (\d+)', tres["out"])
+                m = _re.search(r'"SKIPPED",\s*(\d+)', tres["out"])
                 if m and int(m.group(1)) > 0:
                     raise V.Broken("random driver %s produced %s operations that are not enabled in the specification" % (c2["gen"], m.group(1)))
                 total_states += tres["states"]
